@@ -349,7 +349,7 @@ def struct_specs(mo):
     if mo['writer']:
         base = ('x.%s@' % mo['other']) if mo['other'] else 'Map::<Seq<char>, Primitive>::empty()'
         for k, v, _req in checks_of(mo):
-            base += '.insert(%s, nm(%s))' % (slit(k), slit(v))
+            base = 'ins(%s, %s, nm(%s))' % (base, slit(k), slit(v))
         out.append('pub open spec fn %s_base%s(x: %s) -> DMap {\n    %s\n}' % (p, gW, M, base))
         # the model is built entry by entry (`<p>_dict_<i>` = the first i declared entries on top of the base): the R1 step
         # assertions injected into to_dict name these prefixes, which keeps the proof linear in the number of entries
@@ -400,7 +400,7 @@ def struct_lemmas(mo):
     p, M, name = mo['p'], MT(mo), mo['name']
     gO, gB = G(mo, 'Object'), G(mo, 'Object + ObjectWrite')
     F = mo['fields']
-    facts = lits_facts(mo['keys'])
+    facts = 'broadcast use dictmodel::group_all; ' + lits_facts(mo['keys'])
     out = []
     okR = 'Ok::<%s, PdfError>' % M
     if mo['reader']:
@@ -655,24 +655,42 @@ def rstep(nxt, fact):
     return step(nxt, fact, 'rd_model', before=True)
 
 
-D0 = 'let ghost d0__ = dict@;'
-
 
 def impl_hdr(trait, ty, bound):
     # `impl pdf::object::FromDict for X` / `impl<T: pdf::object::Object> pdf::object::FromDict for Files<T>`
     return r'^impl(<[^>]*>)? pdf::object::%s for %s(<[^>]*>)?$' % (trait, ty)
 
 
-def from_dict(ty, mod, keys, ensures, extra=()):
+def chain(fkeys, known=None):
+    """R1 ghost block at the start of a reader: the dictionary after the i-th `remove`, as a spec term over the ORIGINAL
+    dictionary d0__, and what a look-up of the (i+1)-th key in it yields -- tautologies about `del` and the distinct key
+    literals, stated once before any branching (otherwise the solver re-derives them on every path through the
+    2..3-way matches of the preceding fields)"""
+    t = ['let ghost d0__ = dict@;']
+    prev = 'd0__'
+    facts = []
+    for i, k in enumerate(fkeys):
+        if i > 0:
+            facts.append('assert(%s.dom().contains("%s"@) <==> d0__.dom().contains("%s"@)) by { broadcast use dictmodel::group_all; }' % (prev, k, k))
+            facts.append('assert(%s["%s"@] == d0__["%s"@]) by { broadcast use dictmodel::group_all; }' % (prev, k, k))
+        t.append('let ghost d%d__ = del(%s, "%s"@);' % (i + 1, prev, k))
+        prev = 'd%d__' % (i + 1)
+    if known:
+        facts.append('assert(forall|k: Seq<char>| #![trigger %s.dom().contains(k)] %s.dom().contains(k) <==> (d0__.dom().contains(k) && !%s(k))) by { broadcast use dictmodel::group_all; }' % (prev, prev, known))
+        facts.append('assert(forall|k: Seq<char>| #![trigger %s[k]] %s.dom().contains(k) ==> %s[k] == d0__[k]) by { broadcast use dictmodel::group_all; }' % (prev, prev, prev))
+    return ' '.join(t) + ' proof { ' + ' '.join(facts) + ' }'
+
+
+def from_dict(ty, mod, keys, fkeys, known, ensures, extra=()):
     return {'kind': 'fn', 'file': X, 'container': mod + [impl_hdr('FromDict', ty, 'Object')], 'name': 'from_dict',
             'props': RD, 'ensures': ensures,
-            'rewrites': [PUBFN, body_start(lits(*keys) + ' ' + D0), MAP_ERR, MISSING] + list(extra)}
+            'rewrites': [PUBFN, body_start(lits(*keys) + ' ' + chain(fkeys, known)), MAP_ERR, MISSING] + list(extra)}
 
 
 def to_dict(ty, mod, keys, ensures, extra=()):
     return {'kind': 'fn', 'file': X, 'container': mod + [impl_hdr('ToDict', ty, 'ObjectWrite')], 'name': 'to_dict',
             'props': RT, 'ensures': ensures,
-            'rewrites': [PUBFN, body_start(lits(*keys))] + list(extra)}
+            'rewrites': [PUBFN, body_start('broadcast use dictmodel::group_all; ' + lits(*keys))] + list(extra)}
 
 
 def decl(kind, ty, mod, priv=False, pubfields=(), ndiscr=0):
@@ -750,8 +768,8 @@ def unit_py(uname, models, decl_only):
                     else:
                         fact = '%s matches Ok(o__) && (match o__ { Some(v__) => %s == v__, None => %s })' % (call, f['ident'], dflt_spec(mo, f, f['ident'], prefix=''))
                     ex.append('rstep(r"%s", %r)' % (nxt.replace('\\\\', '\\'), fact))
-                items.append("  '%s::from_dict': from_dict(%r, %r, %r, [\n      ('rd_model', '%s_read%s(dict@, resolve.store(), r)')], extra=[\n      %s]),"
-                             % (n, n, mod, keys, p, tf, ',\n      '.join(ex)))
+                items.append("  '%s::from_dict': from_dict(%r, %r, %r, %r, %r, [\n      ('rd_model', '%s_read%s(dict@, resolve.store(), r)')], extra=[\n      %s]),"
+                             % (n, n, mod, keys, [f['key'] for f in mo['fields']], ('%s_known' % p) if mo['other'] else None, p, tf, ',\n      '.join(ex)))
             if mo['writer']:
                 F = mo['fields']
                 wf = ' || '.join('self.%s.wfail()' % f['ident'] for f in F)
